@@ -24,10 +24,16 @@ class Guards:
         prog = ctx.prog
         self.replay = R.replay_routine()
         self.nested = {}      # Func -> kind
-        for n in ast.walk(self.replay.node):
-            if not isinstance(n, ast.If):
-                continue
-            cls = self._isinstance_class(n.test)
+        from ..astpaths import cond_paths, isinstance_fact
+        for conds, st in cond_paths(self.replay.node.body):
+            idx = None
+            cls = None
+            for i, (t, pol) in enumerate(conds):
+                fct = isinstance_fact(t)
+                if fct and pol:
+                    for c in fct[1]:
+                        if c in R.record_classes:
+                            idx, cls = i, c
             if cls is None:
                 continue
             fields = R.record_fields.get(cls, [])
@@ -37,15 +43,28 @@ class Guards:
                 kind = 'nested_file'
             else:
                 kind = 'nested_sub'
-            for st in n.body:
-                for c in ast.walk(st):
+            scope = [t for t, _ in conds[idx + 1:]] + [st]
+            for e in scope:
+                for c in ast.walk(e):
                     if isinstance(c, ast.Call):
                         for g in prog.resolve_call(c, self.replay):
-                            if isinstance(g, Func) and g.cls == R.builder:
+                            if isinstance(g, Func) and g.cls == R.builder \
+                                    and g != self.replay:
                                 self.nested[g] = kind
         self.top = {}
-        for d in R.deciders():
-            if d in self.nested:
+        cands = list(R.deciders())
+        # a lookup is also any builder function that fetches a record from
+        # the old cache by key (so that a lookup which stopped replaying is
+        # reported, not lost)
+        for f in prog.funcs.values():
+            if f.cls == R.builder and f not in cands and any(
+                    isinstance(g, Func) and g.cls == R.cache and
+                    g.name in ('get_file', 'get_subbuild')
+                    for c in prog.calls_in(f)
+                    for g in prog.resolve_call(c, f)):
+                cands.append(f)
+        for d in cands:
+            if d in self.nested or d == self.replay:
                 continue
             getters = set()
             for c in prog.calls_in(d):
